@@ -240,7 +240,7 @@ pub fn check(prop: &str, tier: &str) -> i32 {
         if let Some(d) = std::env::var("VERIF_M").ok().and_then(|x| x.parse().ok()) {
             pl.opts.max_memo = d;
         }
-        let ex = Explorer { base_cfg: pl.cfg.clone(), opts: pl.opts.clone(), monitor: &guard, xval_full: Default::default() };
+        let ex = Explorer { base_cfg: pl.cfg.clone(), opts: pl.opts.clone(), monitor: &guard, xval_full: Default::default(), choice_discovery: Default::default() };
         let start = if pl.scenario.is_empty() {
             None
         } else {
@@ -437,7 +437,7 @@ pub fn check_c15(tier: &str) -> i32 {
                 };
                 let label = format!("P{p}/{name}@{rate}/D{}M{}b{}", opts.max_depth, opts.max_memo, opts.dev_budget);
                 let t0 = std::time::Instant::now();
-                let ex = Explorer { base_cfg: cfg, opts, monitor: &guard, xval_full: Default::default() };
+                let ex = Explorer { base_cfg: cfg, opts, monitor: &guard, xval_full: Default::default(), choice_discovery: Default::default() };
                 let out = ex.explore(None);
                 if verbose {
                     eprintln!("plan {label:<44} states={:>7} transitions={:>9} found={} {:.2}s", out.stats.states, out.stats.transitions, out.found.len(), t0.elapsed().as_secs_f64());
